@@ -153,11 +153,21 @@ def increments(facts, res):
         field, want_f = INCREMENT[op]
         want = sympy.expand(want_f(counts))
         incs = []
+        cfields = set(f["name"] for f in facts.cls(cls).get("fields", []))
+
+        def counter_field(lhs):
+            """`<member of this>.<field>`: the state record of the decorator, whatever it is called"""
+            lhs = strip(lhs)
+            if lhs.get("k") in ("MemberExpr", "CXXDependentScopeMemberExpr") and kids(lhs):
+                b = strip(kids(lhs)[0])
+                if b.get("k") in ("MemberExpr", "CXXDependentScopeMemberExpr") and b.get("name") in cfields:
+                    return lhs.get("name")
+            return None
         for x in walk(tbf.body(m)):
-            if x.get("k") == "CompoundAssignOperator" and x.get("op") == "+=":
-                lhs = strip(kids(x)[0])
-                if lhs.get("k") in ("MemberExpr", "CXXDependentScopeMemberExpr") and kids(lhs) and strip(kids(lhs)[0]).get("name") == "counters":
-                    incs.append((lhs.get("name"), to_sym(kids(x)[1], sym_of, facts), x))
+            if x.get("k") == "CompoundAssignOperator" and x.get("op") == "+=" and counter_field(kids(x)[0]):
+                incs.append((counter_field(kids(x)[0]), to_sym(kids(x)[1], sym_of, facts), x))
+            elif x.get("k") == "UnaryOperator" and x.get("op") == "++" and counter_field(kids(x)[0]):
+                incs.append((counter_field(kids(x)[0]), sympy.Integer(1), x))
         n += 1
         res.instance("C18.2.increment", "%s::%s" % (cls, op), facts.loc(m), "counters.%s += %s (documented: %s)" % (field, [str(i[1]) for i in incs], want))
         f = tbf.rel(facts.path_of(m))
